@@ -123,7 +123,7 @@ def check(chk, facts):
             chk.ob(rule, "new:%s:%s" % (s["fn"].split("::")[-1], s["what"]), False,
                    "%s rejects with %s under guards %s — not in the reviewed table (a check was added, or the condition / constant of an existing one changed)" % (s["fn"], s["what"], [tuple(g) for g in s["guards"]][:5]),
                    where="%s:%s" % (s["file"], s["line"]), key="%s:new:%s" % (rule, k))
-    chk.floor(rule, "rejection sites", len(sites), 38)
+    chk.floor(rule, "rejection sites", len(sites), 40)
     rule2 = "C07.FORMS"
     for fn, pats in sorted(tab["forms"].items()):
         have = sorted(regexes.get(fn, []))
@@ -133,7 +133,7 @@ def check(chk, facts):
     for fn in sorted(regexes):
         if fn not in tab["forms"]:
             chk.ob(rule2, "new:" + fn.split("::")[-1], False, "%s compiles %s — not in the reviewed table of accepted forms" % (fn, regexes[fn]), key="%s:new:%s" % (rule2, fn))
-    chk.floor(rule2, "regular expressions", sum(len(v) for v in regexes.values()), 4)
+    chk.floor(rule2, "regular expressions", sum(len(v) for v in regexes.values()), 5)
     rule3 = "C07.LIMITS"
     consts = collect.consts
     for cname, e in sorted(tab.get("limits", {}).items()):
